@@ -13,7 +13,7 @@ import c18_threads
 PROPERTY = 'C18'
 MANIFEST = {
  'level_text': 'Lean 4 theorems, kernel-checked, in two layers. (1) A model of supybot.schedule.Schedule, for every sequence of addEvent/addPeriodicEvent/removeEvent/rescheduleEvent/run/reset calls and clock advances, every program of event functions that themselves add, remove, reschedule, add periodic events or raise while running, and every way the heap resolves ties: the name invariant (heap names = keys of events, no name twice) holds in every reachable state and therefore run() never raises; registrations = fired + removed + discarded + still scheduled as multisets with pairwise distinct registration ids (each event fires at most once, a removed event never fires, everything that fired was registered); nothing fires before its due time has passed, each iteration fires an entry of minimal due time, and when run() returns nothing due is left; a fired event carries the function and arguments of its registration, also after rescheduleEvent (repaired: it dropped them), which moves exactly that entry; a raising function ends only its own body; a periodic wrapper with occurrences left re-registers itself whether or not its function raised. (2) A model of the Scheduler plugin on top (event table with its str(id)/name keys and the int-vs-str naming discipline, add/remind/remove/repeat/list, _flush and the pickle, die — repaired: it now takes the saved events out of the schedule —, _restoreEvents with kept ids and the already-scheduled test, load/unload/reload/restart, other plugins scheduling, run): an invariant of every reachable state (every scheduled closure belongs to the live instance and has its table entry, every table entry has its closure scheduled under int(key) or the name, ids ascending and below the counter, the pickle well formed), hence no command runs for a dead instance or misses its entry; reload with events pending leaves the table unchanged and schedules exactly one entry per pending event. Both layers are tied to /repo by differential runs: seeded programs/operation sequences on the real Schedule object, and seeded command sequences (scheduler add/remind/remove/repeat/list, reload/unload/load Scheduler by an owner over IRC, restarts, clock advances) on a live bot with the virtual clock; the heap\'s choices are fed to the models, which check each is a minimum; the property statement is evaluated directly on the implementation (for the plugin: through the replies — every added, never removed command runs exactly once) to produce replays.',
- 'level_note': 'Trusted: Lean kernel; axioms propext/Classical.choice/Quot.sound only; CPython heapq pops an entry of minimal due time (checked per pop, not proved of heapq); str(int)/int(str) round trip for event ids (keys are modelled as Key.id n / Key.name s); the plugin model works on the abstract schedule justified by name_invariant (heap and events dict merged); the correspondence harnesses (generator quality bounds what they see); integer-valued virtual clock frozen during run(). Modelled: schedule.py completely except the lock; plugins/Scheduler/plugin.py: add, remind (as add), remove, repeat (--delay), list, _flush, die, _restoreEvents (incl. _getNextRunIn), the command/periodic closures with the instance that made them. Not modelled: threads, unreadable or foreign pickles, old-format pickles without first_run/network, the text of the commands being replayed (C13/C14), non-Exception exceptions, event functions calling addPeriodicEvent(now=True) from inside a running event. A whole-history conservation theorem for the plugin layer (added = ran + removed + pending) is not proved; it is covered by the invariant plus the reply oracle.',
+ 'level_note': 'Trusted: Lean kernel; axioms propext/Classical.choice/Quot.sound only; CPython heapq pops an entry of minimal due time (checked per pop, not proved of heapq); str(int)/int(str) round trip for event ids (keys are modelled as Key.id n / Key.name s); the plugin model works on the abstract schedule justified by name_invariant (heap and events dict merged); the correspondence harnesses (generator quality bounds what they see); integer-valued virtual clock frozen during run(). Modelled: schedule.py completely except the lock; plugins/Scheduler/plugin.py: add, remind (as add), remove, repeat (--delay), list, _flush, die, _restoreEvents (incl. _getNextRunIn), the command/periodic closures with the instance that made them. Not modelled: threads, unreadable or foreign pickles, old-format pickles without first_run/network, the text of the commands being replayed (C13/C14), non-Exception exceptions, event functions calling addPeriodicEvent(now=True) from inside a running event.',
  'technique': 'Lean 4 proof (induction over operation sequences and heap choices with invariants) + differential correspondence',
  'design_ref': 'DESIGN.md §6 C18',
 }
@@ -23,7 +23,7 @@ THEOREMS = ['C18.name_invariant', 'C18.run_never_raises', 'C18.conservation', 'C
             'C18.periodic_recurs', 'C18.args_preserved', 'C18.scheduled_match_registration',
             'C18.reschedule_moves_entry', 'C18.plugin_invariant', 'C18.plugin_no_stale_runs',
             'C18.reload_keeps_events', 'C18.reload_each_exactly_once', 'C18.load_restores_invariant',
-            'C18.lock_placement_ok', 'C18.threads_safe']
+            'C18.lock_placement_ok', 'C18.threads_safe', 'C18.plugin_conservation', 'C18.plugin_exactly_once']
 TRUSTED = ['Lean 4.33.0 kernel; axioms ⊆ {propext, Classical.choice, Quot.sound}',
            'CPython heapq.heappop returns an entry with minimal due time (mytuple compares due times only); checked on every pop of the run',
            'harness/c18.py generators, instrumentation (virtual clock, recording heapq proxy, recording addEvent/removeEvent wrappers, instrumented event functions), canonicalisation; hex line protocol']
